@@ -126,6 +126,7 @@ func Load(repoDir, tags string, env []string) *Program {
 		}
 	}
 	p.collectSrcFns()
+	p.buildDisplayNames()
 	inheritProg = p
 	inheritMemo = map[*ssa.Function]*LockInfo{}
 	return p
